@@ -12,8 +12,8 @@ pub static DEF: PropDef = PropDef {
     level: "exploration",
     rule: "each case: one input (valid / truncated / mutated / adversarial / mid-document; long first headers and payloads larger than the capacity included) and one configuration (tolerance subset, buffered subset, size limit). Baseline = parse of the whole input from a slice with the default capacity. Variants of the same parse: initial capacities {0,1,2,7,8,15,16,17,len-1,len,len+1,65536, random} x read schedules {whole, 1 byte, k bytes, random partitions, one short read then everything} x six poison patterns written behind the delivered bytes; for inputs of <= 9 bytes (quick) / <= 12 bytes (thorough) ALL 2^(n-1) partitions of the input into reads are enumerated. With end-of-stream closing disabled, temporary EOFs (Ok(0)) are injected at subsets of tag boundaries (every subset for <= 6 boundaries in thorough, random subsets otherwise): the iterator must return None at each pause and the concatenated items must equal the baseline with closing disabled. Oracle: identical (item, offset) sequence and identical first error including all fields. distinct = (capacity class, schedule class, where the first read boundary falls: inside id / size / payload / on a boundary, poison); non-trivial iff capacity or schedule differ from the baseline's.",
     assumptions: &["a Read implementation may scribble on the unused part of the buffer it is given (the poison patterns do)", "step/read budgets turn a hang into a recorded divergence"],
-    cases_quick: 6000,
-    cases_thorough: 300_000,
+    cases_quick: 120_000,
+    cases_thorough: 1_500_000,
     floors: &[("variant_parses_compared", 50_000), ("distinct_nontrivial", 150), ("pause_runs_compared", 3000), ("exhaustive_partition_inputs", 20)],
     exhaustive_note: Some("all 2^(n-1) read partitions of inputs of <= 9 bytes (quick) / <= 12 bytes (thorough); all subsets of <= 6 tag boundaries as pause sets (thorough)"),
     run,
